@@ -166,6 +166,12 @@ func (w *World) installHooks() {
 		w.mu.Lock()
 		if n, ok := w.objNames[obj]; ok {
 			node = n
+		} else if st, ok := obj.(fmt.Stringer); ok {
+			// not a node object but something with a stable name of its own (a request ID)
+			node = st.String()
+			if len(node) > 8 {
+				node = node[:8]
+			}
 		}
 		w.mu.Unlock()
 		peerName := detail
